@@ -64,6 +64,10 @@ enum Step {
     Cmd(LOp),
     /// consumer: drop both channel ends
     Drop,
+    /// consumer: drop only the end on which it writes commands / only the end on which it reads
+    /// notifications (the write task resp. the read task of the runtime loses the consumer)
+    DropTx,
+    DropRx,
     /// socket: the remote lane changes for an external reason
     Lane(LOp),
     /// socket: the remote lane closes the link
@@ -818,6 +822,18 @@ impl DlWorld {
                             con.rx = None;
                             con.dropped_at = Some(step);
                         }
+                        Step::DropTx => {
+                            con.tx = None;
+                            if con.rx.is_none() {
+                                con.dropped_at = Some(step);
+                            }
+                        }
+                        Step::DropRx => {
+                            con.rx = None;
+                            if con.tx.is_none() {
+                                con.dropped_at = Some(step);
+                            }
+                        }
                         Step::Wait(n) => {
                             tokio::time::advance(Duration::from_secs(3) * n + Duration::from_millis(1)).await;
                         }
@@ -1358,7 +1374,7 @@ fn timeout_oracle(w: &DlWorld) -> Vec<(String, String)> {
     // (D4) the runtime is gone: no consumer is left waiting on an open channel
     if !w.subject.alive() {
         for (ci, con) in w.cons.iter().enumerate() {
-            if con.attach.is_some() && con.dropped_at.is_none() && con.closed_at.is_none() {
+            if con.attach.is_some() && con.dropped_at.is_none() && con.rx.is_some() && con.closed_at.is_none() {
                 add("dl: the runtime stopped but a consumer's channel was left open".into(), format!("consumer {}", ci + 1));
             }
         }
@@ -1383,6 +1399,9 @@ pub fn run_timeouts_leg(ctx: &Ctx) {
         // consumers come and go around the timeout
         scripts.push((kind, vec![(1, att(true)), (1, Step::Drop), (0, Step::Lane(l1.clone())), (0, w(6)), (2, att(false)), (2, Step::Cmd(c1.clone())), (2, Step::Drop), (0, Step::Lane(l2.clone())), (0, w(6)), (0, w(6))], 2));
         scripts.push((kind, vec![(0, w(6)), (1, att(true)), (0, w(6)), (1, Step::Cmd(c1.clone())), (0, w(6)), (1, Step::Drop), (0, Step::Lane(l1.clone())), (0, w(9)), (2, att(true)), (0, w(2)), (2, Step::Drop), (0, Step::Lane(l2.clone()))], 2));
+        // a consumer that has closed only one of its two channels is still attached to one task
+        scripts.push((kind, vec![(1, att(false)), (1, Step::DropRx), (0, Step::Lane(l1.clone())), (0, Step::Lane(l2.clone())), (0, w(11)), (2, att(true)), (1, Step::DropTx), (2, Step::DropTx), (0, w(11)), (0, w(5))], 2));
+        scripts.push((kind, vec![(1, att(false)), (1, Step::DropTx), (0, w(11)), (2, att(true)), (1, Step::DropRx), (2, Step::DropRx), (0, Step::Lane(l1.clone())), (0, Step::Lane(l2.clone())), (0, w(11)), (0, w(5))], 2));
         // nobody ever attaches / attaches after the runtime has gone
         scripts.push((kind, vec![(0, w(11)), (1, att(true))], 1));
         scripts.push((kind, vec![(0, w(6)), (0, w(6)), (1, att(false)), (1, Step::Cmd(c1.clone()))], 1));
